@@ -55,13 +55,23 @@ def spellings(ns, name, value, content):
     out['data+foreign-data'] = ('<z><e%s data-x-y="1" data-%s-%s="%s">%s</e></z>'
                                 % (title, ns, name, value, innerd), {'enable_data_attributes': True})
     out['dup-static'] = ('<z><e%s k="1" k="2" %s:%s="%s">%s</e></z>' % (title, ns, name, value, inner), {})
+    # the element itself belongs to a template-language namespace (never rendered), alone and
+    # together with a non-constant omit-tag / an on-error fallback (which build their own tags)
+    own = '%s="%s"' % (name, value) if ns == 'tal' else '%s:%s="%s"' % (ns, name, value)
+    out['ns-element'] = ('<z><tal:e %s>%s</tal:e></z>' % (own, inner), {})
+    if name != 'omit-tag':
+        out['ns-element+omit'] = ('<z><tal:e %s omit-tag="e8">%s</tal:e></z>' % (own, inner), {})
+    if name != 'on-error':
+        out['ns-element+on-error'] = ('<z><metal:e tal:on-error="e9" %s>%s</metal:e></z>'
+                                      % ('%s:%s="%s"' % (ns, name, value), inner), {})
     other = 'tal:define="zz 1"' if name != 'define' else 'tal:condition="1"'
     out['data+prefixed'] = ('<z><e%s data-%s-%s="%s" %s>%s</e></z>' % (title, ns, name, value, other, innerd),
                             {'enable_data_attributes': True})
     return out
 
 
-EXTRA = ('data+foreign-data', 'dup-static', 'data+prefixed')
+EXTRA = ('data+foreign-data', 'dup-static', 'data+prefixed', 'ns-element', 'ns-element+omit',
+         'ns-element+on-error')
 
 
 def normalise(source):
@@ -127,6 +137,8 @@ def unit(spec):
                 o['witness'] = {'inputs': detail, 'detail': 'emitted code differs from the default spelling'}
             obls.append(o)
         for sp in EXTRA:
+            if '%s|%s' % (sid, sp) not in compiled:
+                continue
             got = compiled['%s|%s' % (sid, sp)]
             text = index['%s|%s' % (sid, sp)][2]
             ok = 'source' in got or 'TemplateError' in got.get('mro', [])
@@ -141,6 +153,8 @@ def unit(spec):
                                 'detail': {'error': got.get('error'), 'message': got.get('message')}}
             obls.append(o)
         for sp in ('default', 'renamed-on-self', 'renamed-on-ancestor', 'data-attribute') + EXTRA:
+            if '%s|%s' % (sid, sp) not in compiled:
+                continue
             got = compiled['%s|%s' % (sid, sp)]
             if 'source' not in got:
                 continue
